@@ -43,6 +43,9 @@ type realApp struct {
 	logouts []time.Duration
 	t0      time.Time
 	recv    []string
+	// slowHeartbeat: ToAdmin takes this long for every outgoing Heartbeat (a slow application
+	// callback keeps the run loop busy while keep-alive timers expire)
+	slowHeartbeat time.Duration
 }
 
 func (a *realApp) OnCreate(quickfix.SessionID) {}
@@ -56,7 +59,13 @@ func (a *realApp) OnLogout(quickfix.SessionID) {
 	a.logouts = append(a.logouts, time.Since(a.t0))
 	a.mu.Unlock()
 }
-func (a *realApp) ToAdmin(*quickfix.Message, quickfix.SessionID)     {}
+func (a *realApp) ToAdmin(m *quickfix.Message, _ quickfix.SessionID) {
+	if a.slowHeartbeat > 0 {
+		if mt, _ := m.Header.GetString(35); mt == "0" {
+			time.Sleep(a.slowHeartbeat)
+		}
+	}
+}
 func (a *realApp) ToApp(*quickfix.Message, quickfix.SessionID) error { return nil }
 func (a *realApp) FromAdmin(*quickfix.Message, quickfix.SessionID) quickfix.MessageRejectError {
 	return nil
@@ -78,6 +87,9 @@ func realTimerRun(t *testing.T, scenario string) (violations, late []string, det
 	ss.Set(config.SenderCompID, id.SenderCompID)
 	ss.Set(config.TargetCompID, id.TargetCompID)
 	app := &realApp{}
+	if scenario == "silent-peer-slow-callback" {
+		app.slowHeartbeat = 500 * time.Millisecond
+	}
 	v, err := quickfix.VerifNewSession(id, quickfix.NewMemoryStoreFactory(), ss, quickfix.NewNullLogFactory(), app, false)
 	if err != nil {
 		t.Fatalf("harness: %v", err)
@@ -170,6 +182,56 @@ func realTimerRun(t *testing.T, scenario string) (violations, late []string, det
 		if firstHB >= 0 && firstHB-logonAt < time.Duration(0.7*float64(hb)) {
 			violations = append(violations, "heartbeat-early")
 		}
+	case "silent-peer-slow-callback":
+		// as silent-peer, but every Heartbeat keeps the run loop busy for 0.5 s (1.0-1.5 s after
+		// the logon), so the peer timer (1.2 s) expires while the loop is not waiting for events.
+		// The expiry must still be acted upon. The engine is judged only if this test's own timers
+		// ran on time during the window (a control for a stalled machine).
+		worst := time.Duration(0)
+		stopCtl := make(chan struct{})
+		ctlDone := make(chan struct{})
+		go func() {
+			defer close(ctlDone)
+			for {
+				select {
+				case <-stopCtl:
+					return
+				default:
+				}
+				a := time.Now()
+				time.Sleep(20 * time.Millisecond)
+				if over := time.Since(a) - 20*time.Millisecond; over > worst {
+					worst = over
+				}
+			}
+		}()
+		deadline := time.Now().Add(15 * time.Second)
+		for time.Now().Before(deadline) {
+			mu.Lock()
+			cl := closedAt
+			mu.Unlock()
+			if cl >= 0 {
+				break
+			}
+			time.Sleep(50 * time.Millisecond)
+		}
+		close(stopCtl)
+		<-ctlDone
+		_, firstTR := count("1", logonAt, time.Hour)
+		mu.Lock()
+		cl := closedAt
+		mu.Unlock()
+		detail = fmt.Sprintf("Heartbeat callbacks take 0.5 s; TestRequest at %v, connection closed at %v, OnLogout %v; worst oversleep of the control timer %v", firstTR, cl, app.logouts, worst)
+		switch {
+		case worst > 500*time.Millisecond:
+			late = append(late, "machine-stalled-during-window")
+		case firstTR < 0:
+			violations = append(violations, "no-test-request-in-15s-although-peer-silent")
+		case cl < 0:
+			violations = append(violations, "no-disconnect-in-15s-although-peer-silent")
+		case len(app.logouts) != 1:
+			violations = append(violations, fmt.Sprintf("onlogout-%d-times", len(app.logouts)))
+		}
 	case "chatty-peer":
 		// the peer sends a Heartbeat every 0.4 s for 4 s: no TestRequest, no disconnect, engine Heartbeats keep coming
 		for i := 0; i < 10; i++ {
@@ -248,7 +310,7 @@ func TestC20_RealTimers(t *testing.T) {
 	}
 	c := stats.Get("C20")
 	shard, shards := vk.Shard()
-	scenarios := []string{"silent-peer", "chatty-peer", "answered-test-request", "peer-test-request"}
+	scenarios := []string{"silent-peer", "chatty-peer", "answered-test-request", "peer-test-request", "silent-peer-slow-callback"}
 	for i := 0; i < 2*len(scenarios); i++ {
 		if i%shards != shard {
 			continue
